@@ -573,7 +573,7 @@ package interpreter
 // ---- C06 (partial): the encoding rules that the DER / low-S / strict-encoding flags switch on ----
 //@ func scriptflag.Flag.HasFlag
 //@   pure
-//@   ensures[C06.has_flag_bit] (=> (or (= flag 4) (= flag 64) (= flag 128) (= flag 2048) (= flag 4096) (= flag 8192)) (= result (= (mod (div s flag) 2) 1)))
+//@   ensures[C06.has_flag_bit] (=> (or (= flag 4) (= flag 32) (= flag 64) (= flag 128) (= flag 2048) (= flag 4096) (= flag 8192)) (= result (= (mod (div s flag) 2) 1)))
 //@ func scriptflag.Flag.HasAny
 //@   bytes array
 //@   pure
@@ -581,7 +581,7 @@ package interpreter
 //@   loop 0 invariant (=> (and (= (len flags) 3) (= (at flags 0) 64) (= (at flags 1) 128) (= (at flags 2) 4096)) (and (=> (>= rangeindex 0) (not (= (mod (div s 64) 2) 1))) (=> (>= rangeindex 1) (not (= (mod (div s 128) 2) 1))) (=> (>= rangeindex 2) (not (= (mod (div s 4096) 2) 1)))))
 //@ func interpreter.(*thread).hasFlag
 //@   pure
-//@   ensures[C06.thread_has_flag] (=> (or (= flag 4) (= flag 64) (= flag 128) (= flag 2048) (= flag 4096) (= flag 8192)) (= result (spec.flag_on t flag)))
+//@   ensures[C06.thread_has_flag] (=> (or (= flag 4) (= flag 32) (= flag 64) (= flag 128) (= flag 2048) (= flag 4096) (= flag 8192)) (= result (spec.flag_on t flag)))
 //@ func interpreter.(*thread).hasAny
 //@   bytes array
 //@   pure
@@ -724,3 +724,9 @@ package interpreter
 //@   bytes array
 //@   ensures[C05.exec_skipped_no_effect] (=> (and (= err nil) (not (old (spec.branch_exec t))) (not (and (<= 99 (. pop op val)) (<= (. pop op val) 104)))) (and (= (. t dstack stk) (old (. t dstack stk))) (= (. t astack stk) (old (. t astack stk))) (= (. t condStack) (old (. t condStack)))))
 //@   ensures[C05.exec_disabled] (=> (and (or (= (. pop op val) 141) (= (. pop op val) 142)) (or (not (. t afterGenesis)) (old (spec.should_exec t (. pop op val))))) (distinct err nil))
+// the final verdict: success exactly when the data stack is non-empty, its top item is true and - for the final script under
+// the clean-stack flag (bit 32) - it is the only item
+//@ func interpreter.(*thread).CheckErrorCondition
+//@   bytes token
+//@   opt index-fn 1
+//@   ensures[C05.final_verdict] (= (= err nil) (and (>= (old (len (. t dstack stk))) 1) (=> (and finalScript (old (spec.flag_on t 32))) (= (old (len (. t dstack stk))) 1)) (spec.truthy (old (spec.top_bytes t 0)))))
